@@ -1,4 +1,5 @@
 import NrDaemon.Lemmas.Metrics
+import NrDaemon.Model.Rules
 /-!
   C07 — metric aggregation is order-independent and rename rules are applied faithfully.
 
@@ -176,3 +177,97 @@ theorem C07_rename_keeps_attempts (t : MTable) (rename : String → String) (ord
 /-! sanity tests (evaluated): a scoped/unscoped mix, two names renamed to one -/
 #guard ((applyAll (MTable.new 10) [(("a", ""), ⟨false, ⟨1, 2, 3, 4, 5, 6⟩⟩), (("b", ""), ⟨false, ⟨1, 1, 1, 1, 9, 1⟩⟩)]).applyRules
           (fun _ => "z")).ms.map (fun p => (p.1, p.2.d.c, p.2.d.mn, p.2.d.mx)) == [(("z", ""), 2, 1, 9)]
+
+/-! ## Rename rules: evaluation order, terminate_chain, each_segment, replace_all, ignore (`Model/Rules.lean`) -/
+
+theorem mem_insertByOrder (r b : Rule) (l : List Rule) (hb : b ∈ insertByOrder r l) : b = r ∨ b ∈ l := by
+  induction l with
+  | nil => simp [insertByOrder] at hb; exact Or.inl hb
+  | cons y ys ih =>
+    simp only [insertByOrder] at hb
+    split at hb
+    · rcases List.mem_cons.mp hb with h | h
+      · exact Or.inl h
+      · exact Or.inr h
+    · rcases List.mem_cons.mp hb with h | h
+      · exact Or.inr (by rw [h]; exact List.mem_cons_self)
+      · rcases ih h with h1 | h1
+        · exact Or.inl h1
+        · exact Or.inr (List.mem_cons_of_mem _ h1)
+
+theorem insertByOrder_sorted (r : Rule) (l : List Rule) (h : l.Pairwise (fun a b => a.order ≤ b.order)) :
+    (insertByOrder r l).Pairwise (fun a b => a.order ≤ b.order) := by
+  induction l with
+  | nil => simp [insertByOrder]
+  | cons x xs ih =>
+    simp only [insertByOrder]
+    have hx := List.pairwise_cons.mp h
+    split
+    · rename_i hlt
+      refine List.pairwise_cons.mpr ⟨?_, h⟩
+      intro b hb
+      rcases List.mem_cons.mp hb with rfl | hb
+      · omega
+      · have := hx.1 b hb; omega
+    · rename_i hge
+      refine List.pairwise_cons.mpr ⟨?_, ih hx.2⟩
+      intro b hb
+      rcases mem_insertByOrder r b xs hb with rfl | hb
+      · omega
+      · exact hx.1 b hb
+
+/-- **C07 (rules are applied in evaluation order).**  The chain is evaluated over the rules sorted by `eval_order`. -/
+theorem C07_rules_sorted (rs : List Rule) : (sortRules rs).Pairwise (fun a b => a.order ≤ b.order) := by
+  unfold sortRules
+  induction rs with
+  | nil => simp
+  | cons r rs ih => exact insertByOrder_sorted r _ ih
+
+/-- **C07 (terminate_chain).**  A matching rule with `terminate_chain` ends the chain: its output is the result and no
+later rule is applied, whatever the later rules are. -/
+theorem C07_rules_terminate (r : Rule) (rest : List Rule) (s out : Str) (m : Bool)
+    (h : applyRule r s = (.matched, out)) (ht : r.terminate = true) :
+    applyChain (r :: rest) s m = (.matched, out) := by
+  simp [applyChain, h, ht]
+
+/-- a matching rule without `terminate_chain` hands its output to the next rule; the overall result is then "matched" -/
+theorem C07_rules_continue (r : Rule) (rest : List Rule) (s out : Str) (m : Bool)
+    (h : applyRule r s = (.matched, out)) (ht : r.terminate = false) :
+    applyChain (r :: rest) s m = applyChain rest out true := by
+  simp [applyChain, h, ht]
+
+/-- a rule that does not match is skipped, also when it carries `terminate_chain` -/
+theorem C07_rules_unmatched_skipped (r : Rule) (rest : List Rule) (s out : Str) (m : Bool)
+    (h : applyRule r s = (.unmatched, out)) : applyChain (r :: rest) s m = applyChain rest out m := by
+  simp [applyChain, h]
+
+/-- **C07 (each_segment).**  An each-segment rule rewrites the first match in every `/`-separated segment and counts as
+matched iff it matched in at least one segment — not just the last one. -/
+theorem C07_each_segment (r : Rule) (s : Str) (hi : r.ignore = false) (ha : r.replaceAll = false) (he : r.eachSegment = true) :
+    (applyRule r s).2 = joinSlash ((splitSlash s).map (fun seg => (replaceFirst r seg).2)) ∧
+    ((applyRule r s).1 = .matched ↔ ∃ seg ∈ splitSlash s, (replaceFirst r seg).1 = .matched) := by
+  simp only [applyRule, hi, ha, he, Bool.false_eq_true, if_false, if_true]
+  refine ⟨by simp [List.map_map, Function.comp_def], ?_⟩
+  constructor
+  · intro h
+    split at h
+    · rename_i hany
+      simp only [List.any_eq_true, List.mem_map] at hany
+      obtain ⟨x, ⟨seg, hseg, rfl⟩, hx⟩ := hany
+      exact ⟨seg, hseg, by simpa using hx⟩
+    · cases h
+  · intro ⟨seg, hseg, hm⟩
+    have : ((splitSlash s).map (replaceFirst r)).any (·.1 == .matched) = true := by
+      simp only [List.any_eq_true, List.mem_map]
+      exact ⟨replaceFirst r seg, ⟨seg, hseg, rfl⟩, by simp [hm]⟩
+    simp [this]
+
+/-- **C07 (ignore rules).** -/
+theorem C07_rules_ignore (r : Rule) (rest : List Rule) (s : Str) (m : Bool) (hi : r.ignore = true)
+    (hm : (findMatch r.anchor r.lit s).isSome = true) : applyChain (r :: rest) s m = (.ignore, []) := by
+  simp [applyChain, applyRule, hi, hm]
+
+example : applyRules [{ order := 1, eachSegment := true, terminate := true, lit := ['a'], repl := ['x'] },
+                      { order := 2, lit := ['x'], repl := ['y'] }] "a/b".toList = (.matched, "x/b".toList) := by decide
+example : applyRules [{ order := 2, replaceAll := true, lit := ['a'], repl := ['a', 'a'] },
+                      { order := 1, anchor := .pre, lit := ['b'], repl := [] }] "baca".toList = (.matched, "aacaa".toList) := by decide
